@@ -12,7 +12,7 @@ PROP = {
             "non-trivial = >= 2 surviving files and >= 1 state-changing step applied",
     "min_nontrivial": {"quick": 300, "thorough": 10000},
     "max_secs": {"quick": 60, "thorough": 1000},
-    "require_clauses": ["a:reindexed-equals-fresh", "step:update", "step:remove", "step:re-add", "step:config", "step:reindex"],
+    "require_clauses": ["a:reindexed-equals-fresh", "b:census-not-larger-than-fresh", "step:update", "step:remove", "step:re-add", "step:config", "step:config-reload", "step:reindex"],
     "assumptions": COMMON_ASSUME + [
         "the observable dump of src/observe.rs is taken as 'the observable results'",
         "no std library loaded; reference analyses that are not reproducible (C11) make the case inconclusive",
